@@ -9,75 +9,9 @@ the second after round 1; `collisionPowers` is numpy's `(-np.pi / 3.15) ** np.ar
 implementation's, bit for bit). Both facts below are kernel evaluations (`decide +kernel`, no axiom).
 -/
 import SkNet.Lemmas.WLSpecTab
+import SkNet.Model.WLWitness
 
 namespace SkNet.WL
-
-def collisionAdj : List (List Nat) :=
-  [[1, 2, 3, 4, 5, 6, 7, 8, 9, 10],
-   [0],
-   [0, 3],
-   [0, 2],
-   [0, 5],
-   [0, 4],
-   [0, 7, 10],
-   [0, 6, 8],
-   [0, 7, 9],
-   [0, 8, 10],
-   [0, 6, 9],
-   [24, 25, 26, 27, 28, 37, 38, 39, 40, 50],
-   [25, 26, 27, 28, 29, 38, 39, 40, 41, 51],
-   [26, 27, 28, 29, 30, 39, 40, 41, 42, 52],
-   [27, 28, 29, 30, 31, 40, 41, 42, 43, 53],
-   [28, 29, 30, 31, 32, 41, 42, 43, 44, 54],
-   [29, 30, 31, 32, 33, 42, 43, 44, 45, 55],
-   [30, 31, 32, 33, 34, 43, 44, 45, 46, 56],
-   [31, 32, 33, 34, 35, 44, 45, 46, 47, 57],
-   [32, 33, 34, 35, 36, 45, 46, 47, 48, 58],
-   [24, 33, 34, 35, 36, 46, 47, 48, 49, 59],
-   [24, 25, 34, 35, 36, 37, 47, 48, 49, 60],
-   [24, 25, 26, 35, 36, 37, 38, 48, 49, 61],
-   [24, 25, 26, 27, 36, 37, 38, 39, 49, 62],
-   [11, 20, 21, 22, 23, 25, 26, 27, 34, 35, 36],
-   [11, 12, 21, 22, 23, 24, 26, 27, 28, 35, 36],
-   [11, 12, 13, 22, 23, 24, 25, 27, 28, 29, 36],
-   [11, 12, 13, 14, 23, 24, 25, 26, 28, 29, 30],
-   [11, 12, 13, 14, 15, 25, 26, 27, 29, 30, 31],
-   [12, 13, 14, 15, 16, 26, 27, 28, 30, 31, 32],
-   [13, 14, 15, 16, 17, 27, 28, 29, 31, 32, 33],
-   [14, 15, 16, 17, 18, 28, 29, 30, 32, 33, 34],
-   [15, 16, 17, 18, 19, 29, 30, 31, 33, 34, 35],
-   [16, 17, 18, 19, 20, 30, 31, 32, 34, 35, 36],
-   [17, 18, 19, 20, 21, 24, 31, 32, 33, 35, 36],
-   [18, 19, 20, 21, 22, 24, 25, 32, 33, 34, 36],
-   [19, 20, 21, 22, 23, 24, 25, 26, 33, 34, 35],
-   [11, 21, 22, 23, 38, 39, 40, 41, 46, 47, 48, 49],
-   [11, 12, 22, 23, 37, 39, 40, 41, 42, 47, 48, 49],
-   [11, 12, 13, 23, 37, 38, 40, 41, 42, 43, 48, 49],
-   [11, 12, 13, 14, 37, 38, 39, 41, 42, 43, 44, 49],
-   [12, 13, 14, 15, 37, 38, 39, 40, 42, 43, 44, 45],
-   [13, 14, 15, 16, 38, 39, 40, 41, 43, 44, 45, 46],
-   [14, 15, 16, 17, 39, 40, 41, 42, 44, 45, 46, 47],
-   [15, 16, 17, 18, 40, 41, 42, 43, 45, 46, 47, 48],
-   [16, 17, 18, 19, 41, 42, 43, 44, 46, 47, 48, 49],
-   [17, 18, 19, 20, 37, 42, 43, 44, 45, 47, 48, 49],
-   [18, 19, 20, 21, 37, 38, 43, 44, 45, 46, 48, 49],
-   [19, 20, 21, 22, 37, 38, 39, 44, 45, 46, 47, 49],
-   [20, 21, 22, 23, 37, 38, 39, 40, 45, 46, 47, 48],
-   [11, 51, 52, 53, 54, 55, 56, 57, 58, 59, 60, 61, 62],
-   [12, 50, 52, 53, 54, 55, 56, 57, 58, 59, 60, 61, 62],
-   [13, 50, 51, 53, 54, 55, 56, 57, 58, 59, 60, 61, 62],
-   [14, 50, 51, 52, 54, 55, 56, 57, 58, 59, 60, 61, 62],
-   [15, 50, 51, 52, 53, 55, 56, 57, 58, 59, 60, 61, 62],
-   [16, 50, 51, 52, 53, 54, 56, 57, 58, 59, 60, 61, 62],
-   [17, 50, 51, 52, 53, 54, 55, 57, 58, 59, 60, 61, 62],
-   [18, 50, 51, 52, 53, 54, 55, 56, 58, 59, 60, 61, 62],
-   [19, 50, 51, 52, 53, 54, 55, 56, 57, 59, 60, 61, 62],
-   [20, 50, 51, 52, 53, 54, 55, 56, 57, 58, 60, 61, 62],
-   [21, 50, 51, 52, 53, 54, 55, 56, 57, 58, 59, 61, 62],
-   [22, 50, 51, 52, 53, 54, 55, 56, 57, 58, 59, 60, 62],
-   [23, 50, 51, 52, 53, 54, 55, 56, 57, 58, 59, 60, 61]]
-def collisionPowers : Array Float :=
-  #[Float.ofBits 4607182418800017408, Float.ofBits 13830530415450247069, Float.ofBits 4607134402554203651, Float.ofBits 13830482527359738669, Float.ofBits 4607086642276954244, Float.ofBits 13830434894554614812, Float.ofBits 4607039136603732979, Float.ofBits 13830387515673981236, Float.ofBits 4606991884177277821, Float.ofBits 13830340389364198437, Float.ofBits 4606944883647562126, Float.ofBits 13830293514278842991, Float.ofBits 4606898133671756074, Float.ofBits 13830246889078669089, Float.ofBits 4606851632914188301, Float.ofBits 13830200512431570271, Float.ofBits 4606805380046307738, Float.ofBits 13830154383012541370, Float.ofBits 4606759373746645656, Float.ofBits 13830108499503640657, Float.ofBits 4606713612700777909, Float.ofBits 13830062860593952181, Float.ofBits 4606668095601287380, Float.ofBits 13830017464979548320, Float.ofBits 4606622821147726630, Float.ofBits 13829972311363452528, Float.ofBits 4606577788046580740, Float.ofBits 13829927398455602276, Float.ofBits 4606532995011230357, Float.ofBits 13829882724972812196, Float.ofBits 4606488440761914933, Float.ofBits 13829838289638737420, Float.ofBits 4606444124025696163, Float.ofBits 13829794091183837115, Float.ofBits 4606400043536421617, Float.ofBits 13829750128345338207, Float.ofBits 4606356198034688563, Float.ofBits 13829706399867199311, Float.ofBits 4606312586267807986, Float.ofBits 13829662904500074838, Float.ofBits 4606269206989768799, Float.ofBits 13829619641001279302, Float.ofBits 4606226058961202245, Float.ofBits 13829576608134751820, Float.ofBits 4606183140949346484, Float.ofBits 13829533804671020792, Float.ofBits 4606140451728011374, Float.ofBits 13829491229387168776, Float.ofBits 4606097990077543440, Float.ofBits 13829448881066797551, Float.ofBits 4606055754784791024, Float.ofBits 13829406758499993359, Float.ofBits 4606013744643069630, Float.ofBits 13829364860483292344, Float.ofBits 4605971958452127442, Float.ofBits 13829323185819646160, Float.ofBits 4605930395018111037, Float.ofBits 13829281733318387778, Float.ofBits 4605889053153531273, Float.ofBits 13829240501795197464, Float.ofBits 4605847931677229366, Float.ofBits 13829199490072068945, Float.ofBits 4605807029414343139]
 
 theorem collisionAdj_wf : WFAdj collisionAdj := wfAdj_of_check _ (by decide +kernel)
 
